@@ -82,6 +82,18 @@ def run(ctx, args):
                 pend.discard(e["p"])
         overl += o
     ctx.cov["executions_with_overlapping_calls"] = overl
+    kv, kvsame = 0, 0
+    for _, evs in traces:
+        callof = {}
+        for e in evs:
+            if e["ev"] == "Call":
+                callof[e["p"]] = e
+            elif e["ev"] == "Ret" and e["p"] in callof:
+                v = callof[e["p"]].get("var")
+                kv += bool(e.get("reuse")) and v in (4, 6)
+                kvsame += e["res"] == "ok" and v == 5
+    ctx.cov["refusals_of_challenges_differing_only_in_the_key_vector"] = kv
+    ctx.cov["answers_through_a_different_key_vector_with_the_same_challenge"] = kvsame
     ctx.cov["refusals_observed"] = sum(1 for e in events if e["ev"] == "Ret" and e.get("reuse"))
     ctx.cov["identical_retries_answered"] = sum(1 for e in events if e["ev"] == "Ret" and e["res"] == "ok") - \
         sum(1 for t in traces for n in {e["n"] for e in t[1] if e["ev"] == "Call"})
